@@ -13,9 +13,14 @@ B  for every signed / digest-carrying configuration TLC enumerates: a recording 
    PyCryptodome called directly on the spec's ranges must accept.  Then, on the small wires, EVERY byte
    offset is substituted (xor 0x01, xor 0x80, thorough: + a random value), EVERY truncation taken and
    every TLV-level edit of TLC's edit table applied; TLC's region / edit table gives the verdict class.
+   The edit table includes the value-preserving re-encodings of the signature value (NdnPackets!SvOps: zero octets
+   in front, DER long-form lengths / non-minimal INTEGERs, and - on the value classes "first octet zero" / "last
+   octet zero", realised by re-signing varied content until the signer returns such a value - the value without
+   that octet); each with all lengths and the parameters digest fixed up.
 C  random larger configurations: observed ranges (offsets of the parser's memoryviews inside the
    wire) and random substitutions with their outcomes are recorded and judged by TLC (NdnPacketsTrace:
-   RegionAt(cfg, pos) decides each).
+   RegionAt(cfg, pos) decides each); the re-encodings of the signature value are applied to every recorded packet
+   (and to packets re-signed into each value class) and judged by TLC against the edit table (SvEditOk).
 """
 import hashlib, json, os, re
 
@@ -78,13 +83,19 @@ def digest_recompute(wire):
         return 'na'
 
 
-def outcome(cfg, ver, wire):
-    """Feed a (possibly tampered) wire to parse_* and the checks. -> dict(parsed, sigacc[list], digacc, digeq)"""
+def outcome(cfg, ver, wire, full=False):
+    """Feed a (possibly tampered) wire to parse_* and the checks. -> dict(parsed, sigacc[list], digacc, digeq)
+    full: ask the *Checker class of the algorithm as well as verify_*."""
     try:
         name, _, _, sp = parse(cfg, wire)
     except Exception:  # noqa: any decoding error = not accepted
         return {'parsed': False, 'sigacc': [], 'digacc': 'na', 'digeq': 'na'}
-    sigacc = ver.accepted(name, sp) if ver is not None and ver.has else []
+    if ver is None or not ver.has:
+        sigacc = []
+    elif full:
+        sigacc = [n for n, ok in ver.lib(name, sp) if ok]
+    else:
+        sigacc = ver.accepted(name, sp)
     digacc = digeq = 'na'
     if cfg['kind'] == 'interest':
         try:
@@ -291,9 +302,164 @@ def apply_edit(wire, e):
         parts[i] = st.write_var(k[0]) + st.write_var(len(value)) + value
         out = rebuild(outer[0], parts)
         return fix_digest(out) if outer[0] == 5 else out
+    elif op in SV_REENC_OPS:
+        k = kids[i]
+        value = sv_reencode(wire[k[2]:k[3]], op)
+        if value is None:
+            return None
+        parts[i] = st.write_var(k[0]) + st.write_var(len(value)) + value
+        out = rebuild(outer[0], parts)
+        return fix_digest(out) if outer[0] == 5 else out
     else:
         raise MachineryError('unknown edit %r' % op)
     return rebuild(outer[0], parts)
+
+
+# ---- value-preserving re-encodings of the signature value (NdnPackets!SvPadOps, SvClassOps, SvDerOps)
+SV_DER_OPS = ('svder-seql', 'svder-rl', 'svder-sl', 'svder-rz', 'svder-sz')
+SV_REENC_OPS = ('svpad1', 'svpad3', 'svlzcut', 'svtzcut') + SV_DER_OPS
+SV_RAW_KINDS = ('rsa', 'hmac', 'ed25519', 'digest', 'digestI')
+
+
+def sv_classes(sig):
+    """The value classes (NdnPackets: need) a genuine signature value belongs to."""
+    out = set()
+    if sig is not None and len(sig) >= 2:
+        if sig[0] == 0:
+            out.add('lz')
+        if sig[-1] == 0:
+            out.add('tz')
+    return out
+
+
+def _der_len(n, longer=False):
+    """DER length octets; longer: the next longer (non-minimal) form"""
+    if n < 128:
+        return bytes([0x81, n]) if longer else bytes([n])
+    if n < 256:
+        return bytes([0x82, 0, n]) if longer else bytes([0x81, n])
+    return bytes([0x83, 0, n >> 8, n & 255]) if longer else bytes([0x82, n >> 8, n & 255])
+
+
+def _der_read(buf, pos, tag):
+    """-> (value, end) of the minimal-DER element with this tag at pos; raises ValueError"""
+    if pos + 2 > len(buf) or buf[pos] != tag:
+        raise ValueError('tag')
+    n = buf[pos + 1]
+    pos += 2
+    if n >= 128:
+        k = n & 127
+        if k not in (1, 2) or pos + k > len(buf):
+            raise ValueError('length')
+        n = int.from_bytes(buf[pos:pos + k], 'big')
+        pos += k
+        if _der_len(n) != bytes(buf[pos - k - 1:pos]):
+            raise ValueError('non-minimal length')
+    if pos + n > len(buf):
+        raise ValueError('overrun')
+    return bytes(buf[pos:pos + n]), pos + n
+
+
+def der_rs(der):
+    """(r, s) octets of a minimal-DER ECDSA signature value, None if it is not one"""
+    try:
+        body, end = _der_read(der, 0, 0x30)
+        if end != len(der):
+            return None
+        r, p = _der_read(body, 0, 0x02)
+        s_, p = _der_read(body, p, 0x02)
+        return (r, s_) if p == len(body) and r and s_ else None
+    except ValueError:
+        return None
+
+
+def sv_reencode(value, op):
+    """The signature value after a value-preserving re-encoding; None when the edit is not defined on this value."""
+    if op == 'svpad1':
+        return b'\x00' + value
+    if op == 'svpad3':
+        return b'\x00\x00\x00' + value
+    if op == 'svlzcut':
+        return value[1:] if 'lz' in sv_classes(value) else None
+    if op == 'svtzcut':
+        return value[:-1] if 'tz' in sv_classes(value) else None
+    rs = der_rs(value)
+    if rs is None:
+        return None
+    r, s_ = rs
+
+    def integer(v, longer=False):
+        return b'\x02' + _der_len(len(v), longer) + v
+
+    def seq(body, longer=False):
+        return b'\x30' + _der_len(len(body), longer) + body
+    if op == 'svder-seql':
+        return seq(integer(r) + integer(s_), True)
+    if op == 'svder-rl':
+        return seq(integer(r, True) + integer(s_))
+    if op == 'svder-sl':
+        return seq(integer(r) + integer(s_, True))
+    if op == 'svder-rz':
+        return seq(integer(b'\x00' + r) + integer(s_))
+    if op == 'svder-sz':
+        return seq(integer(r) + integer(b'\x00' + s_))
+    raise MachineryError('unknown signature-value re-encoding %r' % op)
+
+
+def sv_class_budget(ctx):
+    """How many of the exhaustively tampered configurations per (kind, signer) are also re-signed into the value
+    classes of the edit table (each search costs about 256 signatures per class)."""
+    if ctx.quick:
+        # ECDSA (last octet zero AND the configuration's DER length: ~700 signatures of 2 ms) is left to stage C,
+        # where any length will do; its DER re-encodings need no class and run on every tampered configuration
+        return {'rsa': 1, 'ed25519': 1, 'ecdsa': 0, 'hmac': 2, 'digest': 2, 'digestI': 1}
+    return {'rsa': 4, 'ed25519': 6, 'ecdsa': 6, 'hmac': 20, 'digest': 12, 'digestI': 5}
+
+
+SV_SEARCH_CAP = 1800        # (255/256)^1800 = 0.09 %
+
+
+def find_sv_classes(ctx, cfg, pool, needs, first=None, same_layout=None, build_kw=None):
+    """Re-sign varied content (a fresh pk.build of the same abstract configuration: new name / payload / key locator
+    octets, for ECDSA also a new nonce) until the signer has returned a signature value of each wanted class.
+    -> {class: Built}; a class that was not met within the cap is missing (counted in the evidence, not an error).
+    All packets of one search are signed with one signer object.  The search draws from its own generator, seeded from ctx.rng, so that the number of attempts (which depends on
+    the system randomness of ECDSA) does not shift the run's random stream."""
+    import random
+    srng = random.Random(ctx.rng.getrandbits(64))
+    needs = set(needs)
+    build_kw = dict(build_kw or {})
+    if build_kw.get('live') is None and signed(cfg):
+        # one signer object for the whole search (constructing an RSA signer costs more than a hundred signatures)
+        kl = pk.name_bytes(cfg['sg']['kl'], srng) if cfg['sg']['haskl'] else None
+        build_kw['live'] = (pk.make_inner(cfg['sg'], pool, kl), kl)
+    found = {}
+    if first is not None and first.rec is not None:
+        for c in sv_classes(first.rec.sig) & needs:
+            found[c] = first
+    seen = set()
+    stale = n = 0
+    while len(found) < len(needs) and n < SV_SEARCH_CAP and stale < 120:
+        b = pk.build(cfg, srng, pool, **build_kw)
+        n += 1
+        sig = None if (b.exc is not None or b.rec is None) else b.rec.sig
+        if sig is None or sig in seen:
+            stale += 1          # nothing left to vary in this configuration
+            continue
+        stale = 0
+        seen.add(sig)
+        for c in (sv_classes(sig) & needs) - set(found):
+            try:
+                if same_layout is not None and pk.layout(b.wire) != same_layout:
+                    continue
+            except st.TlvError:
+                continue
+            found[c] = b
+    x = ctx.extra
+    x['sv_class_searches'] = x.get('sv_class_searches', 0) + len(needs)
+    x['sv_class_found'] = x.get('sv_class_found', 0) + len(found)
+    x['sv_class_signatures_made'] = x.get('sv_class_signatures_made', 0) + n
+    return found
 
 
 P256_N = 0xFFFFFFFF00000000FFFFFFFFFFFFFFFFBCE6FAADA7179E84F3B9CAC2FC632551
@@ -324,21 +490,32 @@ def fix_digest(wire):
     return wire[:pds[0][2]] + d + wire[pds[0][3]:]
 
 
-def edits(ctx, cfg, exp, b, ver, rep_base):
+def edits(ctx, cfg, exp, b, ver, rep_base, classes=None):
+    """classes: {value class: (Built, Verifier)} - genuine packets of the same configuration whose signature value is
+    of that class; an edit of the table that needs a class is applied to that packet (skipped when there is none)."""
     n = 0
     for e in sorted(exp['edits'], key=lambda x: (x['lvl'], x['op'], x['i'])):
-        t = apply_edit(b.wire, e)
+        src, v = b, ver
+        if e.get('need', 'any') != 'any':
+            if not classes or e['need'] not in classes:
+                continue
+            src, v = classes[e['need']]
+        t = apply_edit(src.wire, e)
         if t is None:
+            if e['op'] in SV_REENC_OPS and v is not None and v.has and cfg['sg']['kind'] != 'syn':
+                raise MachineryError('the re-encoding %s is not defined on the signature value of %s' % (e['op'], cfg['sg']))
             continue
-        o = outcome(cfg, ver, t)
+        o = outcome(cfg, v, t, full=e['op'] in SV_REENC_OPS)
         n += 1
+        if e['op'] in SV_REENC_OPS:
+            ctx.nt(['B', cfg, 'edit', e['lvl'], e['op'], e['i']])
         if e['op'] == 'svneg':
             ctx.extra['ecdsa_twin_signatures'] = ctx.extra.get('ecdsa_twin_signatures', 0) + 1
             ctx.extra['ecdsa_twin_accepted'] = ctx.extra.get('ecdsa_twin_accepted', 0) + bool(o['sigacc'])
         judge_outcome(ctx, cfg, o, e['sig'], e['dig'], 'edit-%s-%s' % (e['lvl'], e['op']),
                       'signature-value' if e['op'].startswith('sv') else
                       'covered' if e['sig'] == 'reject' else ('digest-covered' if e['dig'] == 'fail' else 'uncovered'),
-                      dict(rep_base, edit=e, wire=b.wire.hex()))
+                      dict(rep_base, edit=e, wire=src.wire.hex()))
     return n
 
 
@@ -373,7 +550,7 @@ def run(ctx):
         rw = tlc.run('NdnPacketsWit', wp, workers=1, heavy=False)
         m = re.search(r'<<\s*"WITNESSES",\s*(\[.*?\])\s*>>', rw.out, re.S)
         wit = tlaval.parse(m.group(1)) if m else {}
-        missing = [k for k in ('EitherRegion', 'EditEither', 'PdNotLast', 'EmptySig', 'OuterNarrows3to1') if wit.get(k) is not True]
+        missing = [k for k in ('EitherRegion', 'EditEither', 'PdNotLast', 'EmptySig', 'OuterNarrows3to1', 'SvClassAll', 'SvDerAll') if wit.get(k) is not True]
         if missing:
             raise MachineryError('vacuous: situations not in the configuration space: %s' % missing)
         sign_hist_stage_a(ctx)
@@ -381,7 +558,9 @@ def run(ctx):
     if 'B' in ctx.stages:
         lines, r = pk.gen(ctx, scale, 'c02')
         budget = tamper_budget(ctx)
+        cbudget = sv_class_budget(ctx)
         used = {}
+        cused = {}
         n_cfg = n_t = 0
         # small wires first so that the byte-level budget goes to them; deterministic order
         todo = [ln for ln in lines if not ln['exp']['refuse'] and (signed(ln['cfg']) or need_digest(ln['cfg']))]
@@ -412,13 +591,23 @@ def run(ctx):
                 used[key] = used.get(key, 0) + 1
                 k = substitutions(ctx, cfg, exp, b, ver, range(size), rep)
                 k += truncations(ctx, cfg, b, ver, range(size), rep)
-                k += edits(ctx, cfg, exp, b, ver, rep)
+                needs = {e['need'] for e in exp['edits'] if e.get('need', 'any') != 'any'}
+                classes = {}
+                if needs and ver is not None and ver.has and cused.get(key, 0) < cbudget.get(cfg['sg']['kind'], 0):
+                    cused[key] = cused.get(key, 0) + 1
+                    for c, b2 in sorted(find_sv_classes(ctx, cfg, pool, needs, first=b, same_layout=pk.exp_layout(exp)).items()):
+                        # the re-signed packet is a signed packet like any other: ranges, matching verifier accepts
+                        v2, ok2 = (ver, True) if b2 is b else check_ranges(ctx, cfg, exp, b2, pool, rep)
+                        if ok2:
+                            classes[c] = (b2, v2)
+                k += edits(ctx, cfg, exp, b, ver, rep, classes)
                 n_t += k
                 for rg in exp['regions']:
                     if rg['hi'] > rg['lo']:
                         ctx.nt(['B', cfg, 'substitute', rg['reg'], rg['lo']])
                 for e in exp['edits']:
-                    ctx.nt(['B', cfg, 'edit', e['lvl'], e['op'], e['i']])
+                    if e['op'] not in SV_REENC_OPS:
+                        ctx.nt(['B', cfg, 'edit', e['lvl'], e['op'], e['i']])
                 ctx.nt(['B', cfg, 'truncate'])
                 ctx.sample({'kind': 'B-tampered-config', 'cfg': cfg, 'regions': exp['regions'], 'tampered_wires': k}, limit=2)
             elif size > 400 and (ctx.rng.random() < ctx.pick(0.1, 0.4)):
@@ -437,6 +626,12 @@ def run(ctx):
         ctx.extra['tampered_wires_B'] = n_t
         ctx.note('B: %d signed/digest configurations range-checked, %d tampered wires judged (exhaustive on %s)' % (
             n_cfg, n_t, dict(('%s/%s' % k, v) for k, v in sorted(used.items()))))
+        ctx.note('B: signature-value classes (first / last octet zero): re-signed %s configurations; %d of %d class searches '
+                 'met a value of the class (%d signatures made, cap %d per search)' % (
+                     dict(('%s/%s' % k, v) for k, v in sorted(cused.items())), ctx.extra.get('sv_class_found', 0),
+                     ctx.extra.get('sv_class_searches', 0), ctx.extra.get('sv_class_signatures_made', 0), SV_SEARCH_CAP))
+        if 'rsa' in cbudget and not any(k[1] == 'rsa' for k in cused):
+            raise MachineryError('no RSA configuration was re-signed into the signature-value classes')
         sign_hist_stage_b(ctx, pool)
         check_hist_stage_b(ctx, pool)
     if 'C' in ctx.stages:
@@ -454,21 +649,26 @@ def run(ctx):
         ctx.sample({'kind': 'C-record', 'cfg': recs[0]['cfg'], 'signed': recs[0]['signed'], 'tampers': recs[0]['tampers'][:4]})
         rejected = pk.judge(ctx, 'NdnPacketsTrace', 'NdnPacketsTrace.cfg', recs, 'c02-traces')
         ctx.traces += len(recs)
-        nt = sum(len(r['tampers']) for r in recs)
+        nt = sum(len(r['tampers']) + len(r.get('svedits', [])) for r in recs)
         ctx.evaluations += len(recs) + nt
         ctx.extra['tampered_wires_C'] = nt
         ctx.note('C: %d recorded packets (%d tampered wires) judged by TLC, %d rejected' % (len(recs), nt, len(rejected)))
         report_trace_rejections(ctx, recs, rejected)
+        sv_class_stage_c(ctx, pool)
         sign_hist_stage_c(ctx, pool)
         check_hist_stage_c(ctx, pool)
 
 
 def report_trace_rejections(ctx, recs, rejected):
     names = {'5': 'signed-range', '6': 'signature-value-range', '7': 'digest-range', '8': 'digest-value-range',
-             '9': 'tamper-verdict', '3': 'layout', '4': 'layout', '2': 'exception'}
+             '9': 'tamper-verdict', '3': 'layout', '4': 'layout', '2': 'exception', '10': 'signature-value-reencoding-verdict'}
     for i, code in rejected:
         rec = recs[i]
-        ctx.violation('C02/%s/%s/trace/%s' % (rec['cfg']['kind'], rec['cfg']['sg']['kind'], names.get(str(code).strip(), 'clause-%s' % code)),
+        what = names.get(str(code).strip(), 'clause-%s' % code)
+        if str(code).strip() == '10':
+            acc = sorted(e['op'] for e in rec.get('svedits', []) if e['sigacc'])
+            what += '/' + ('accepted-' + acc[0] if acc else 'params-digest')
+        ctx.violation('C02/%s/%s/trace/%s' % (rec['cfg']['kind'], rec['cfg']['sg']['kind'], what),
                       'recorded packet rejected by NdnPacketsTrace (clause %s = %s): cfg %s' % (
                           code, names.get(str(code).strip()), json.dumps(rec['cfg'])[:500]),
                       {'kind': 'trace', 'rec': rec, 'code': code})
@@ -775,13 +975,35 @@ def sign_hist_stage_c(ctx, pool):
     ctx.note('C: %d random signer-reuse histories (%d packets) judged by TLC, %d rejected' % (len(hists), len(recs), len(rej)))
 
 
-def record(ctx, cfg, pool, live=None, ntamper=14, hold=None):
+def sv_driver_ops(cfg, sig):
+    """The re-encodings the stage-C driver applies to a packet with this genuine signature value: (op, need).
+    (Which of them the table offers, and the verdict, is TLC's: NdnPacketsTrace!SvEditOk.)"""
+    k = cfg['sg']['kind']
+    ops = [('svpad1', 'any'), ('svpad3', 'any')]
+    cl = sv_classes(sig)
+    if k == 'ecdsa' and len(sig) >= 8:
+        ops += [(op, 'any') for op in SV_DER_OPS]
+        if 'tz' in cl:
+            ops.append(('svtzcut', 'tz'))
+    if k in SV_RAW_KINDS and len(sig) >= 2:
+        ops += [(op, need) for op, need in (('svlzcut', 'lz'), ('svtzcut', 'tz')) if need in cl]
+    return ops
+
+
+def record(ctx, cfg, pool, live=None, ntamper=14, hold=None, want=None):
     """Stage C: build, observe the parser's ranges as offsets, tamper at random offsets, record outcomes.
     live: (signer object, key locator) of a signer that is being reused. The record gets rec['own'] = the fresh
-    packet verifies (library verifier and PyCryptodome directly) over exactly its own signed portion."""
+    packet verifies (library verifier and PyCryptodome directly) over exactly its own signed portion.
+    want: a value class ('lz' / 'tz'): the packet is re-signed (varied content) until its signature value is of that
+    class; None is returned when the cap was reached."""
     if cfg['kind'] == 'interest' and any(c['t'] == pk.T_PD and c['l'] != 32 for c in cfg['name']):
         return None                      # a digest placeholder of a wrong length: C01's finding
-    b = pk.build(cfg, ctx.rng, pool, target=False, live=live)
+    if want is not None:
+        b = find_sv_classes(ctx, cfg, pool, {want}, build_kw={'target': False, 'live': live}).get(want)
+        if b is None:
+            return None
+    else:
+        b = pk.build(cfg, ctx.rng, pool, target=False, live=live)
     if b.rec is not None and b.rec.actual is not None and cfg['sg']['kind'] == 'ecdsa':
         cfg['sg']['a'] = b.rec.actual
     if cfg['sg']['a'] < 0:
@@ -840,8 +1062,58 @@ def record(ctx, cfg, pool, live=None, ntamper=14, hold=None):
         v = ctx.rng.choice([wire[p] ^ 0x01, wire[p] ^ 0x80, (wire[p] + ctx.rng.randrange(1, 256)) % 256])
         o = outcome(cfg, ver, wire[:p] + bytes([v]) + wire[p + 1:])
         rec['tampers'].append({'pos': p, 'sigacc': bool(o['sigacc']), 'digacc': o['digacc'], 'digeq': o['digeq']})
+    if ver is not None and ver.has and b.rec is not None and b.rec.sig is not None and rec['own']:
+        nk = len(pk.top_elements(wire))
+        sve = []
+        for op, need in sv_driver_ops(cfg, b.rec.sig):
+            t = apply_edit(wire, {'lvl': 'top', 'op': op, 'i': nk})
+            if t is None:
+                raise MachineryError('the re-encoding %s is not defined on the signature value of %s' % (op, cfg['sg']))
+            o = outcome(cfg, ver, t, full=True)
+            sve.append({'op': op, 'need': need, 'sigacc': bool(o['sigacc']), 'digacc': o['digacc'], 'digeq': o['digeq']})
+            if o['sigacc'] and len(wire) < 3000:
+                rec['svwire'] = wire.hex()          # for the reader of a replay object; not judged
+            ctx.nt(['C', cfg, op])
+        if sve:
+            rec['svedits'] = sve
+            rec['chk'] = rec['chk'] + ['svedits']
     ctx.nt(['C', cfg])
     return rec
+
+
+SV_CLASS_KINDS = ['rsa', 'hmac', 'ed25519', 'digest', 'digestI', 'ecdsa']
+
+
+def sv_class_stage_c(ctx, pool):
+    """Packets of random (small) configurations re-signed into each value class of the signature value, recorded
+    like every stage-C packet (ranges, substitutions, re-encodings) and judged by TLC."""
+    recs = []
+    asked = 0
+    for rep_ in range(ctx.pick(1, 8)):
+        for kind in SV_CLASS_KINDS:
+            k = 'interest' if kind == 'digestI' else ctx.rng.choice(['data', 'interest'])
+            cfg = pk.rand_cfg(ctx.rng, k, maxc=4, big=False)
+            cfg['sg'] = json.loads(json.dumps(reuse_sg(kind, ctx.rng)))
+            cfg['name'] = [c for c in cfg['name'] if c['t'] != pk.T_PD]
+            if k == 'interest':
+                cfg['app'] = min(max(cfg['app'], 8), 300)      # something to vary
+            else:
+                cfg['content'] = min(max(cfg['content'], 8), 300)
+            for want in (('tz',) if kind == 'ecdsa' else ('lz', 'tz')):
+                asked += 1
+                rec = record(ctx, json.loads(json.dumps(cfg)), pool, ntamper=4, want=want)
+                if rec is not None and not rec['refused']:
+                    if not any(e['need'] == want for e in rec.get('svedits', [])):
+                        raise MachineryError('the %s packet re-signed into class %s carries no edit of that class' % (kind, want))
+                    recs.append(rec)
+    rejected = pk.judge(ctx, 'NdnPacketsTrace', 'NdnPacketsTrace.cfg', recs, 'c02-svclass')
+    ctx.traces += len(recs)
+    ctx.evaluations += sum(len(r['tampers']) + len(r.get('svedits', [])) for r in recs)
+    ctx.note('C: %d of %d packets re-signed into a signature-value class (first / last octet zero) recorded and judged by TLC, %d rejected'
+             % (len(recs), asked, len(rejected)))
+    if not any(r['cfg']['sg']['kind'] == 'rsa' for r in recs):
+        ctx.note('C: no RSA signature value of a class was met within the cap in this run')
+    report_trace_rejections(ctx, recs, rejected)
 
 
 def replay(ctx, path):
